@@ -30,7 +30,7 @@ def setup_worker():
 
 
 def shards(tier, seed):
-    n = 150 if tier == "quick" else 10000
+    n = 150 if tier == "quick" else 5000
     return [dict(seed=seed * 1000 + i, n=n) for i in range(16)]
 
 
